@@ -570,6 +570,54 @@ _FORECAST_CLAUSE = {
 }
 
 
+def _paths(spec, path, acc):
+    """tag -> tuple of composite kinds from the top composite down to the direct parent"""
+    t = spec["t"]
+    here = path + (t,)
+    if t in ("rec", "naive"):
+        acc[spec["g"]] = path
+    elif t == "pipe":
+        for x in spec["ts"]:
+            acc[x["g"]] = here
+        _paths(spec["f"], here, acc)
+    else:
+        if t == "stack":
+            acc[spec["g"]] = here
+        for i, m in enumerate(spec["ms"]):
+            _paths(m, here + (i,), acc)
+    return acc
+
+
+_STRUCT_CLAUSE = {
+    "ens": "ensemble-members-not-each-run-once-in-order-on-their-own",
+    "pipe": "pipeline-steps-not-called-in-chain-order",
+    "mux": "multiplexer-not-selected-member",
+    "stack": "stack-members-and-meta-not-called-as-holdout-fit-then-refit",
+}
+
+
+def _blame(case, ea, eb):
+    roles = _roles(case["spec"], "top", {})
+    if ea is not None and eb is not None and (ea[0], ea[1]) == (eb[0], eb[1]):
+        # same call, different payload: blame the composite that handed the data over
+        return _EVENT_CLAUSE.get((roles.get(ea[1], "?"), ea[0]), "inner-estimator-call-differs")
+    # different calls: blame the innermost composite containing both estimators
+    paths = _paths(case["spec"], (), {})
+    pa = paths.get(ea[1], ()) if ea is not None else None
+    pb = paths.get(eb[1], ()) if eb is not None else None
+    if pa is None or pb is None:
+        common = pa if pb is None else pb
+    else:
+        common = ()
+        for x, y in zip(pa, pb):
+            if x != y:
+                break
+            common += (x,)
+    kinds = [k for k in common if isinstance(k, str)]
+    return _STRUCT_CLAUSE.get(kinds[-1] if kinds else case["spec"]["t"],
+                              "inner-estimator-call-differs")
+
+
 def oracle(case, out):
     if "impl_err" in out:
         if "ref_err" in out:
@@ -577,7 +625,6 @@ def oracle(case, out):
         return "composite-raised-where-parts-compose: %s" % out["impl_err"]
     if "ref_err" in out:
         return "composite-accepted-where-parts-raise: %s" % out["ref_err"]
-    roles = _roles(case["spec"], "top", {})
     for i, (a, b) in enumerate(zip(out["impl"], out["ref"])):
         what = "after fit" if i == 0 else "after update %d" % i
         ta, tb = a["trace"], b["trace"]
@@ -585,11 +632,8 @@ def oracle(case, out):
             ea = ta[j] if j < len(ta) else None
             eb = tb[j] if j < len(tb) else None
             if ea is None or eb is None or not _ev_close(ea, eb):
-                e = ea or eb
-                clause = _EVENT_CLAUSE.get((roles.get(e[1], "?"), e[0]),
-                                           "inner-estimator-call-differs")
                 return "%s: %s, event %d: composite sent %s, composition of parts sends %s" % (
-                    clause, what, j, _show(ea), _show(eb))
+                    _blame(case, ea, eb), what, j, _show(ea), _show(eb))
         if not _ser_close(a["pred"], b["pred"]):
             return "%s: %s: composite %s, parts %s" % (
                 _FORECAST_CLAUSE[case["spec"]["t"]], what, _show_ser(a["pred"]),
